@@ -191,7 +191,45 @@ fn pcanon(e: &Expression) -> String {
             let args: Vec<String> = c.args.iter().map(|a| format!(" {}", pcanon(a))).collect();
             format!("(call {}{})", pcanon(&c.func), args.join(""))
         }
+        Expression::If(i) => {
+            let e = match &i.else_if {
+                ElseIfExpr::Empty => "(noelse)".to_string(),
+                ElseIfExpr::Else(b) => format!("(else {})", pblk(b)),
+                ElseIfExpr::ElseIf(x) => format!("(elif {})", pcanon(x)),
+            };
+            format!("(if {} {} {})", pcanon(&i.condition), pblk(&i.then_stmt), e)
+        }
+        Expression::Function(f) => format!("(fn {} {})", pparams(&f.params), pblk(&f.body)),
         _ => "(other)".to_string(),
+    }
+}
+
+fn pparams(ps: &[Identifier]) -> String {
+    let items: Vec<String> = ps.iter().map(|p| format!(" {}", wire::hex(p.value.as_bytes()))).collect();
+    format!("(params{})", items.join(""))
+}
+
+fn pblk(b: &BlockStatement) -> String {
+    let items: Vec<String> = b.statements.iter().map(|s| format!(" {}", pstmt(s))).collect();
+    format!("(blk{})", items.join(""))
+}
+
+/// canonical text of a statement (the format of `P2sh.Parser.PStmt.canon`)
+fn pstmt(s: &Statement) -> String {
+    match s {
+        Statement::Let(l) => format!("(let {} {})", wire::hex(l.name.value.as_bytes()), pcanon(&l.value)),
+        Statement::Return(r) => match &r.value {
+            Some(v) => format!("(ret {})", pcanon(v)),
+            None => "(ret)".to_string(),
+        },
+        Statement::Expr(e) => format!("(expr {})", pcanon(&e.value)),
+        Statement::Block(b) => pblk(b),
+        Statement::While(w) if w.label.is_none() => format!("(while {} {})", pcanon(&w.condition), pblk(&w.body)),
+        Statement::Loop(l) if l.label.is_none() => format!("(loop {})", pblk(&l.body)),
+        Statement::Break(b) => format!("(break {})", label(&b.label)),
+        Statement::Continue(c) => format!("(continue {})", label(&c.label)),
+        Statement::Function(f) => format!("(fnstmt {} {} {})", wire::hex(f.name.as_bytes()), pparams(&f.params), pblk(&f.body)),
+        _ => "(sother)".to_string(),
     }
 }
 
@@ -207,6 +245,18 @@ pub fn pexpr(rest: &str) -> String {
         [Statement::Expr(e)] => format!("ok {}", pcanon(&e.value)),
         _ => "multi".into(),
     }
+}
+
+/// `pprog <hex src> [@@ …]`: the real parser on a whole program (C01): `perr` or the canonical statement list
+pub fn pprog(rest: &str) -> String {
+    let Some(src) = src_of(rest) else { return "bad-op".into() };
+    let mut parser = Parser::new(Scanner::new(&src));
+    let prog = parser.parse_program();
+    if !parser.parse_errors().is_empty() {
+        return "perr".into();
+    }
+    let items: Vec<String> = prog.statements.iter().map(|s| format!(" {}", pstmt(s))).collect();
+    format!("ok (prog{})", items.join(""))
 }
 
 fn nums<T: std::fmt::Display>(xs: &[T]) -> String {
